@@ -154,6 +154,16 @@ func ChannelMB(t Tier, r *Rng, emit Emit) {
 		if !auto && r.Intn(3) == 0 {
 			add(B + 1)
 		}
+		if auto && i%4 == 1 {
+			// data elements DEFINED at continuation-bit positions of an expanding bitmap (65, 129
+			// with 8-byte blocks): the library leaves such an element out of bitmap and body
+			// (documented and tested); populated as the highest element, below a higher one, alone
+			for _, id := range []int{B + 1, 2*B + 1, 3*B + 1} {
+				if r.Intn(2) == 0 {
+					ids[id] = true
+				}
+			}
+		}
 		var keys []int
 		for id := range ids {
 			keys = append(keys, id)
